@@ -7,13 +7,15 @@ import RoModel.DriverCore
 import RoModel.Drivers.Op
 import RoModel.Drivers.Chain
 import RoModel.Drivers.Cancel
+import RoModel.Drivers.Race
 namespace Ro.Driver
 
 def handlers : List (String × (Case → String)) := [
   ("op", Drivers.Op.run),
   ("chain", Drivers.Chain.runChain),
   ("reuse", Drivers.Chain.runReuse),
-  ("cancel", Drivers.Cancel.run)
+  ("cancel", Drivers.Cancel.run),
+  ("race", Drivers.Race.run)
 ]
 
 def runCase (c : Case) : String :=
